@@ -98,7 +98,44 @@ fn show_fres(r: Option<Result<Frame, FrameError>>, o: &mut L, with_flags: bool) 
 }
 
 // ---------- USE / USD ----------
+// A frame codec is a pure function: nothing an earlier decode (encode) did may show in a later encode (decode).  Before their first case
+// the encoder streams (USE, CAE) let the process 'hear traffic' - well-formed link frames of every shape, bodies with a byte forced to 0x00 / 0xff,
+// over-long and empty bodies, CAN frames of every kind - and the decoder streams (USD, CAD) first encode frames of every shape; results discarded.
+fn frames_heard() {
+    static ONCE: std::sync::Once = std::sync::Once::new();
+    ONCE.call_once(|| {
+        let mut r = Rng::new(0x0066_7261_6d65_7301);
+        for n in 0..400u32 {
+            let f = gen_frame(&mut r, n % 2 == 0);
+            let mut body = vec![0xe0 & (r.below(256) as u8) | ((n % 16) as u8), (n & 0xff) as u8, (n >> 3) as u8, n as u8, f.data_len];
+            body.extend_from_slice(&f.data[..f.data_len as usize]);
+            let enc = cobs_enc(&body);
+            { let e = enc.clone(); let _ = guarded(move || Frame::from_usart_frame(e)); }
+            for x in [0x00u8, 0xff] { let mut e = enc.clone(); let i = r.below(e.len() as u64) as usize; e[i] = x; let _ = guarded(move || Frame::from_usart_frame(e)); }
+            { let mut b = body.clone(); b[4] = r.range(9, 255) as u8; let e = cobs_enc(&b); let _ = guarded(move || Frame::from_usart_frame(e)); }
+            { let k = r.below(40) as usize; let e = r.bytes(k); let _ = guarded(move || Frame::from_usart_frame(e)); }
+            let dl = r.below(9); let mut l = vec![(n % 8 != 0) as u64, (n % 11 == 0) as u64, 0, dl, dl];
+            l[2] = if l[0] != 0 { r.below(1 << 29) } else { r.below(2048) };
+            if l[1] != 0 { l[4] = 0; }
+            let nb = l[4] as usize; l.extend(r.bytes(nb).iter().map(|b| *b as u64));
+            let _ = guarded(move || Frame::from_bxcan_frame(parse_can(&l)));
+        }
+    });
+}
+fn frames_sent() {
+    static ONCE: std::sync::Once = std::sync::Once::new();
+    ONCE.call_once(|| {
+        let mut r = Rng::new(0x0066_7261_6d65_7302);
+        for n in 0..400u32 {
+            let f = gen_frame(&mut r, true);
+            { let g = copy_frame(&f); let _ = guarded(move || g.to_usart_frame()); }
+            let _ = guarded(move || f.to_bxcan_frame());
+            let _ = n;
+        }
+    });
+}
 pub fn exec_use(case: &[u64]) -> L {
+    frames_heard();
     let (f, _) = parse_frame(case);
     let mut o = vec![];
     match guarded(move || f.to_usart_frame()) {
@@ -111,6 +148,7 @@ pub fn exec_use(case: &[u64]) -> L {
     o
 }
 pub fn exec_usd(case: &[u64]) -> L {
+    frames_sent();
     let enc: Vec<u8> = case.iter().map(|x| *x as u8).collect();
     // marked case (be ef 01 01 01): the decoder has a long life behind it in this process - 70000 malformed, 70000 wrongly sized and 70000 good
     // frames decoded before this one (a pure function keeps nothing from them)
@@ -187,6 +225,7 @@ pub fn parse_can(l: &[u64]) -> BxFrame {
     if l[1] != 0 { BxFrame::new_remote(id, l[3] as u8) } else { BxFrame::new_data(id, Data::new(&data).expect("harness: bad data")) }
 }
 pub fn exec_cae(case: &[u64]) -> L {
+    frames_heard();
     let (f, _) = parse_frame(case);
     let mut o = vec![];
     match guarded(move || f.to_bxcan_frame()) {
@@ -199,6 +238,7 @@ pub fn exec_cae(case: &[u64]) -> L {
     o
 }
 pub fn exec_cad(case: &[u64]) -> L {
+    frames_sent();
     let c = parse_can(case);
     let mut o = vec![];
     show_fres(guarded(move || Frame::from_bxcan_frame(c)), &mut o, true);
